@@ -717,6 +717,16 @@ fn exception_with_backlog(r: &mut Rng, res: &mut CaseResult) {
     // the violation
     let (frame, code) = if r.bool() { (F::ClientOnly { ch: actors[0].id, which: r.next() as u8 }, 530u16) } else { (F::Unimplemented { ch: actors[0].id, which: r.next() as u8 }, 540u16) };
     h.inject(frame.encode());
+    // the broker does not know yet that we are closing: more of its frames (a heartbeat,
+    // a delivery nobody asked for) may arrive while our Close waits behind the stall, and
+    // are of no interest any more
+    if r.bool() {
+        std::thread::sleep(Duration::from_micros(r.range(0, 1500)));
+        for _ in 0..r.usize(1, 3) {
+            h.inject(if r.bool() { enc_raw(wire::T_HEARTBEAT, 0, &[]) } else { enc_method(actors[0].id, AMQPClass::Basic(B::Deliver(basic::Deliver { consumer_tag: "nobody".into(), delivery_tag: 9, redelivered: false, exchange: "x".into(), routing_key: "k".into() }))) });
+        }
+        res.obs("server_frames_behind_the_violation", 1);
+    }
     // submissions keep coming while the Close waits behind the stall
     let deadline = std::time::Instant::now() + Duration::from_millis(r.range(2, 12));
     let mut late = 0u64;
